@@ -199,10 +199,8 @@ theorem groupRowsBy_ins_eq {K : Type} [DecidableEq K] (kv : K → List Value)
     by_cases hk : k = k'
     · subst hk
       simp [kIns, encG]
-    · trace_state
-      have := ih
-      simp only [encG] at this
-      rw [this]
+    · rw [if_neg (by simpa using hk)]
+      rw [ih]
       simp [kIns, hk, encG]
 
 theorem groupRowsBy_eq {K : Type} [DecidableEq K] (kv : K → List Value)
@@ -251,7 +249,6 @@ theorem groupRowsBy_eq {K : Type} [DecidableEq K] (kv : K → List Value)
   have hm : (rs.map (fun L => (kf L, L))).filter (fun p => decide (p.1 = k)) = (rs.filter (fun r => decide (kf r = k))).map (fun L => (kf L, L)) := by
     rw [List.filter_map]; rfl
   rw [hm]
-  simp only [List.map_map, Function.comp, List.map_id']
   obtain ⟨r, hr, e⟩ := List.mem_map.mp hk
   have hne : rs.filter (fun r => decide (kf r = k)) ≠ [] := by
     intro h
@@ -264,24 +261,20 @@ theorem groupRowsBy_eq {K : Type} [DecidableEq K] (kv : K → List Value)
     have : a ∈ rs.filter (fun r => decide (kf r = k)) := by rw [hf]; simp
     have := (List.mem_filter.mp this).2
     simp only [decide_eq_true_eq] at this
-    simp [this]
+    simp [this, Function.comp_def]
 
 /-! ### `sum` over integers -/
 
 theorem applyAggregate_sum_int {β : Type} (f : β → Int) (xs : List β) (hne : xs ≠ []) :
     applyAggregate "sum" false false (xs.map (fun x => [Value.int (f x)])) = .ok (.int ((xs.map f).foldl (· + ·) 0)) := by
-  have hfold : ∀ (ys : List β) (acc : Int),
-      (ys.map (fun x => Value.int (f x))).foldlM (fun (acc : Int) (v : Value) =>
-        match v with
-        | .int n => (pure (acc + n) : R Int)
-        | .text s => do return acc + (← parseIntText s)
-        | _ => throw (pgErr "42883" s!"function sum({v.toText}) does not exist")) acc = .ok ((ys.map f).foldl (· + ·) acc) := by
-    intro ys
+  have hfold : ∀ (F : Int → Value → R Int), (∀ acc n, F acc (.int n) = .ok (acc + n)) → ∀ (ys : List β) (acc : Int),
+      (ys.map (fun x => Value.int (f x))).foldlM F acc = .ok ((ys.map f).foldl (· + ·) acc) := by
+    intro F hF ys
     induction ys with
     | nil => intro acc; rfl
     | cons y ys ih =>
       intro acc
-      simp only [List.map_cons, List.foldlM_cons, List.foldl_cons, bind, Except.bind, pure, Except.pure]
+      simp only [List.map_cons, List.foldlM_cons, List.foldl_cons, hF, bind, Except.bind]
       exact ih _
   unfold applyAggregate
   have h1 : (("sum" : String) == "count") = false := by decide
@@ -297,6 +290,88 @@ theorem applyAggregate_sum_int {β : Type} (f : β → Int) (xs : List β) (hne 
     | nil => exact absurd rfl hne
     | cons a as => rfl
   simp only [h1, Bool.false_eq_true, if_false, hmap, hflt, hemp, bind, Except.bind, pure, Except.pure]
-  rw [hfold]
+  rw [hfold _ (fun acc n => rfl)]
+
+/-! ### aggregated SELECT -/
+
+/-- the output row of a unit (representative input row, group) -/
+def outRowOfU (proj : List (List Scope) → List Value) (u : List Scope × Option (List (List Scope))) : OutRow :=
+  { vals := proj (u.2.getD []), srcs := u.1.filterMap (·.src), locals := u.1, group := u.2, wins := [] }
+
+/-- the output row of a group -/
+def outRowOfG (proj : List (List Scope) → List Value) (G : List (List Scope)) : OutRow := outRowOfU proj (G.headD [], some G)
+
+/-- `SELECT e₁ [AS a₁], … FROM … WHERE c GROUP BY col₁, … ORDER BY …` (group columns = input columns; no HAVING, windows, DISTINCT)
+    over ANY input rows: filter, group by the typed key, project every group, sort. -/
+theorem exec_evalSelect_group {K : Type} [DecidableEq K] (n : Nat) (env : Env) (es : List (Expr × String)) (from_ : List FromItem)
+    (wher : Expr) (gcols : List String) (hg : gcols ≠ []) (order : List OrderItem) (s : St) (Ls : List (List Scope))
+    (w : List Scope → Bool) (kf : List Scope → K) (kv : K → List Value) (proj : List (List Scope) → List Value)
+    (hfrom : (evalFromList n env from_ [[]]).exec s = (.ok Ls, s))
+    (hwhere : ∀ L ∈ Ls, (do
+        let v ← evalExpr (cbs n) s.w.types { env with locals := L } wher
+        pure ((← liftR v.truth) == some true)).exec s = (.ok (w L), s))
+    (hgin : ∀ L ∈ Ls, ∀ c ∈ gcols, (lookupUnqualified (L ++ env.outer) c).isSome = true)
+    (hkey : ∀ L ∈ Ls, w L = true →
+      (evalExprs (cbs n) s.w.types { env with locals := L } (gcols.map (Expr.col ""))).exec s = (.ok (kv (kf L)), s))
+    (hsame : ∀ a b, sameGroupKey (kv a) (kv b) = .ok (decide (a = b)))
+    (hwin : Expr.winsList (es.map (·.1)) ++ Expr.winsList (order.map OrderItem.exprOf) = [])
+    (hproj : ∀ G ∈ groupsOf kf (Ls.filter w),
+      (evalExprs (cbs n) s.w.types { env with locals := G.headD [], group := some G, wins := [] } (es.map (·.1))).exec s = (.ok (proj G), s))
+    (sorted : List OutRow) (tie : Bool)
+    (hsort : (sortOut n env (outNames es) ((groupsOf kf (Ls.filter w)).map (outRowOfG proj)) order).exec s = (.ok (outNames es, sorted), s.tie tie)) :
+    (evalSelect (n + 1) env (Select.mk false [] (es.map (fun p => SelItem.expr p.1 p.2)) from_ (some wher) (gcols.map (Expr.col "")) none) order).exec s =
+      (.ok (outNames es, sorted), s.tie tie) := by
+  have hF : ∀ (F : (List String × List Expr) → SelItem → M (List String × List Expr))
+      (hF : ∀ acc e a s, (F acc (.expr e a)).exec s = (.ok (acc.1 ++ [if a.isEmpty then exprOutName e else a], acc.2 ++ [e]), s)),
+      ((es.map (fun p => SelItem.expr p.1 p.2)).foldlM F ([], [])).exec s = (.ok (outNames es, es.map (·.1)), s) := by
+    intro F hF
+    have := exec_foldlM_exprItems F hF es ([], []) s
+    simpa using this
+  have hgE : ∀ (f : Expr → Expr), (∀ c ∈ gcols, f (Expr.col "" c) = Expr.col "" c) →
+      (gcols.map (Expr.col "")).map f = gcols.map (Expr.col "") := by
+    intro f hf
+    rw [List.map_map]
+    apply List.map_congr_left
+    intro c hc
+    exact hf c hc
+  have hne : (gcols.map (Expr.col "")).isEmpty = false := by
+    cases gcols with
+    | nil => exact absurd rfl hg
+    | cons a as => rfl
+  have hfilter := exec_filterM _ w Ls s hwhere
+  rw [evalSelect]
+  simp only [exec_bind, exec_typeEnv, hfrom, hfilter]
+  rw [hF _ (by intro acc e a s'; rfl)]
+  simp only [hne, Bool.not_false, Bool.true_or, if_true, exec_bind]
+  rw [hgE]
+  · simp only [hne, Bool.false_eq_true, if_false, exec_bind]
+    rw [exec_mapM_pure _ (fun L => (kv (kf L), L))]
+    · simp only [groupRowsBy_eq kv hsame kf (Ls.filter w), exec_liftR_ok, exec_pure, hwin, List.foldlM_nil, exec_bind, List.map_map]
+      rw [exec_mapM_pure _ (fun (x : Nat × List Scope × Option (List (List Scope))) => outRowOfU proj x.2)]
+      · have hmz := map_zip_range (List.map ((fun (x : List Value × List (List Scope)) => (x.2.headD [], some x.2)) ∘
+            fun G => (kv (kf (G.headD [])), G)) (groupsOf kf (Ls.filter w))) (outRowOfU proj)
+        rw [hmz]
+        simp only [List.map_map]
+        have hfe : (outRowOfU proj ∘ (fun (x : List Value × List (List Scope)) => (x.2.headD [], some x.2)) ∘
+            fun G => (kv (kf (G.headD [])), G)) = outRowOfG proj := by funext G; rfl
+        rw [hfe]
+        simp only [hsort, List.isEmpty_nil, Bool.not_true, Bool.false_eq_true, if_false, exec_bind, exec_pure]
+      · intro x hx
+        obtain ⟨i, u⟩ := x
+        have hx2 := List.of_mem_zip hx
+        obtain ⟨G, hG, hxe⟩ := List.mem_map.mp hx2.2
+        subst hxe
+        have hp := hproj G hG
+        simp only [Function.comp, List.map_nil, exec_bind, hp, exec_pure]
+        rfl
+    · intro L hL
+      have hLm := List.mem_filter.mp hL
+      simp only [exec_bind, hkey L hLm.1 hLm.2, exec_pure]
+  · intro c hc
+    cases hLs : Ls with
+    | nil => simp
+    | cons L rest =>
+      have := hgin L (by rw [hLs]; simp) c hc
+      simp [this]
 
 end Ledger.Sql
